@@ -124,6 +124,10 @@ pub fn scenarios(tier: Tier) -> Vec<Scenario> {
 							if fill > 0 && flush_before {
 								continue;
 							}
+							// the 1000-byte fillers are meant for the 4 KiB memtable and larger
+							if fill > 0 && memtable < 4096 {
+								continue;
+							}
 							out.push(Scenario {
 								memtable,
 								nbefore,
